@@ -425,8 +425,17 @@ def explore(ctx: core.Ctx, inputs: list, depth_of, deadline: float, view_order: 
     """Level-synchronous BFS over all given inputs at once.  depth_of(spec) = maximal history length for that
     input (None = unbounded).  Returns the statistics of this stage."""
     acc = ctx.acc
+    usable = []
     for s in inputs:     # built once in the parent, inherited by the forked workers
-        reference(s)
+        try:
+            reference(s)
+            usable.append(s)
+        except Exception as exc:  # noqa: BLE001 - a well-formed input (the harness's own decoder reads it) that the library cannot open
+            acc.evaluations += 1
+            acc.fail('valid_input_unreadable', {'input': list(s), 'history': [], 'open_only': True},
+                     f'input={input_name(tuple(s))}: opening + observing the untouched file raised {type(exc).__name__}: {exc}',
+                     exc=type(exc).__name__)
+    inputs = usable
 
     pre = BAcc()
     core.par_map(shard, [('pre', s) for s in inputs if s[0] == 'synth'], pre)
@@ -595,7 +604,13 @@ def replay(case: dict) -> list:
         return [f for f in acc.all_failures() if f.case.get('history') == case.get('history')]
     spec = tuple(case['input'])
     try:
-        if case.get('precheck'):
+        if case.get('open_only'):
+            try:
+                _REF.pop(spec, None)
+                reference(spec)
+            except Exception as exc:  # noqa: BLE001
+                acc.fail('valid_input_unreadable', case, f'{type(exc).__name__}: {exc}', exc=type(exc).__name__)
+        elif case.get('precheck'):
             check_reader_vs_encoder(acc, spec)
         else:
             check_state(acc, spec, list(case['history']))
